@@ -50,7 +50,7 @@ func c05treeDesc(t map[string][]byte) string {
 func TestC05(t *testing.T) {
 	rep := lib.NewReport("C05", "exploration")
 	defer rep.Finish(t)
-	rep.Rule = "trees = all maps from {+p (sorts before .datamon), q, d/r} to {absent,c1,c2} (27); ALL 729 ordered pairs (A,B) (identical, disjoint, same path same/different content, same content under another path, empty either side): core.Diff (archive vs archive, and local copy vs archive) = set computed from the two maps, each path once with the right type and entries; core.Update(target=B, local copy of A) leaves the destination (data files and .datamon metadata) byte-identical to a fresh Publish of B; destination stores: map store and localfs; distinct = distinct (A,B) pairs"
+	rep.Rule = "trees = all maps from {+p (sorts before .datamon), q, d/r} to {absent,c1,c2} (27); ALL 729 ordered pairs (A,B) (identical - the target is then a second bundle holding the same tree -, disjoint, same path same/different content, same content under another path, empty either side): core.Diff (archive vs archive, and local copy vs archive) = set computed from the two maps, each path once with the right type and entries; core.Update(target=B, local copy of A) leaves the destination (data files and .datamon metadata) byte-identical to a fresh Publish of B; destination stores: map store and localfs; distinct = distinct (A,B) pairs"
 	L := 64
 	w := NewWorld()
 	w.Blob.NoJournal = true
@@ -65,6 +65,21 @@ func TestC05(t *testing.T) {
 			t.Fatal(err)
 		}
 		ids[n] = b.BundleID
+	}
+	// the target of a pair (A, A) is a SECOND bundle holding the same tree (same entries, another ID, message and time)
+	ids2 := make([]string, 27)
+	for n := 0; n < 27; n++ {
+		b, err := uploadFiles(st, "r", c05tree(n), L, 0, core.BundleDescriptor(newBundleDesc(L, "the same tree committed again")))
+		if err != nil {
+			t.Fatal(err)
+		}
+		ids2[n] = b.BundleID
+	}
+	target := func(a, b int) string {
+		if a == b {
+			return ids2[b]
+		}
+		return ids[b]
 	}
 	newDest := func(local bool) storage.Store {
 		if local {
@@ -139,7 +154,7 @@ func TestC05(t *testing.T) {
 				}
 				checkDiff("archive-archive",
 					core.NewBundle(core.Repo("r"), core.ContextStores(st), core.BundleID(ids[a]), core.Logger(nopLogger)),
-					core.NewBundle(core.Repo("r"), core.ContextStores(st), core.BundleID(ids[b]), core.Logger(nopLogger)))
+					core.NewBundle(core.Repo("r"), core.ContextStores(st), core.BundleID(target(a, b)), core.Logger(nopLogger)))
 				for _, local := range []bool{false, true} {
 					kind := "mapstore"
 					if local {
@@ -152,9 +167,9 @@ func TestC05(t *testing.T) {
 					}
 					checkDiff("local-archive|"+kind,
 						core.NewBundle(core.ConsumableStore(dest), core.Logger(nopLogger)),
-						core.NewBundle(core.Repo("r"), core.ContextStores(st), core.BundleID(ids[b]), core.Logger(nopLogger)))
+						core.NewBundle(core.Repo("r"), core.ContextStores(st), core.BundleID(target(a, b)), core.Logger(nopLogger)))
 					guard(rep, "C05|update|"+kind, func() string { return desc }, rp, func() {
-						src := core.NewBundle(core.Repo("r"), core.ContextStores(st), core.BundleID(ids[b]), core.Logger(nopLogger))
+						src := core.NewBundle(core.Repo("r"), core.ContextStores(st), core.BundleID(target(a, b)), core.Logger(nopLogger))
 						dst := core.NewBundle(core.ConsumableStore(dest), core.Logger(nopLogger))
 						err := core.Update(context.Background(), src, dst)
 						rep.Eval(1)
@@ -163,7 +178,7 @@ func TestC05(t *testing.T) {
 							return
 						}
 						fresh := newDest(local)
-						if _, err := downloadBundle(st, "r", ids[b], fresh, 0); err != nil {
+						if _, err := downloadBundle(st, "r", target(a, b), fresh, 0); err != nil {
 							rep.Violate("C05|fresh-download-error", desc+": "+err.Error(), rp)
 							return
 						}
